@@ -333,6 +333,10 @@ def check(ctx):
     # helpers calling helpers with their cursor param are fine; close over call sites
     def cursor_ok(fn, expr, defs):
         """expr evaluates to a cursor of a with-managed connection (or a cursor param)."""
+        if isinstance(expr, ast.Call) and last_attr(expr) == "cursor" and isinstance(expr.func, ast.Attribute) and isinstance(expr.func.value, ast.Name):
+            # the cursor taken in place: `helper(conn.cursor(), ..)`
+            cds = defs.get(expr.func.value.id, [])
+            return bool(cds) and all(cd.kind == "with" and isinstance(cd.value, ast.Call) and call_name(cd.value) == "_xh_sqlite_get_conn" and lexically_inside(expr, cd.stmt) for cd in cds)
         if not isinstance(expr, ast.Name):
             return False
         ds = defs.get(expr.id, [])
